@@ -25,7 +25,7 @@ func NewKafkaReceiverV(consumer kafkainterface.MessageConsumer, topic string, pa
 		notifier:       notifier,
 		partitionCount: partitionCount,
 		initMutex:      sync.RWMutex{},
-		initBuffer:     make(map[string]*wireMessage),
+		initBuffer:     make(map[messageID]*wireMessage),
 	}
 }
 
